@@ -257,7 +257,7 @@ func round(c *core.Ctx, seed int64, dur time.Duration, nAPI int) (problems []str
 	// watchdog
 	deadline := time.After(dur)
 	last := int64(-1)
-	tick := time.NewTicker(2 * time.Second)
+	tick := time.NewTicker(10 * time.Second)
 loop:
 	for {
 		select {
@@ -268,7 +268,7 @@ loop:
 			if p == last {
 				buf := make([]byte, 1<<16)
 				n := runtime.Stack(buf, true)
-				report("watchdog: no goroutine made progress for 2 s (deadlock?)\n" + string(buf[:n]))
+				report("watchdog: no goroutine made progress for 10 s (deadlock?)\n" + string(buf[:n]))
 				break loop
 			}
 			last = p
@@ -280,8 +280,8 @@ loop:
 	go func() { wg.Wait(); close(done) }()
 	select {
 	case <-done:
-	case <-time.After(10 * time.Second):
-		report("goroutines did not stop within 10 s after the stop signal")
+	case <-time.After(30 * time.Second):
+		report("goroutines did not stop within 30 s after the stop signal")
 		return
 	}
 	// quiescent point: table invariants
@@ -297,7 +297,7 @@ loop:
 	time.Sleep(300 * time.Millisecond)
 	if n := runtime.NumGoroutine(); n > base {
 		// spoof loops end at their next check; give them one more cycle
-		time.Sleep(3 * time.Second)
+		time.Sleep(8 * time.Second)
 		if n = runtime.NumGoroutine(); n > base {
 			report(fmt.Sprintf("Close left background goroutines running: %d before the run, %d after Close", base, n))
 		}
